@@ -1374,6 +1374,11 @@ class TaskScenario(ScenarioData):
                     all_available = False
                     break
 
+            # Every member's booking counts against the limits it falls under; the team is booked
+            # as a whole, so each limit must have room for all of its members in this slot
+            if all_available and not self._teamLimitsHaveRoom(slot_idx, resources_to_book):
+                all_available = False
+
             if not all_available:
                 # Can't book - one or more resources unavailable
                 return
@@ -1459,6 +1464,31 @@ class TaskScenario(ScenarioData):
             if not limits.ok(sbIdx, upper=True, resource=resource.id if resource else None):
                 return False
         return True
+
+    def _teamLimitsHaveRoom(self, sbIdx: int, resources: list[Any]) -> bool:
+        """
+        Check that every upper limit touched by booking all the given resources in one slot
+        (task limits incl. parent tasks, resource limits incl. parent resources) admits that
+        many further bookings, so that a team is never booked for only some of its members.
+        """
+        demand: dict[int, list[Any]] = {}
+
+        def need(limit: Any, room: Optional[int]) -> None:
+            if room is not None:
+                entry = demand.setdefault(id(limit), [room, 0])
+                entry[1] += 1
+
+        for resource in resources:
+            for limits in self.getAllLimits():
+                for limit in getattr(limits, "_limits", []):
+                    need(limit, limit.remaining(sbIdx, resource.id))
+            node = resource
+            while node:
+                res_limits = node.get("limits", self.scenarioIdx)
+                for limit in getattr(res_limits, "_limits", []) if res_limits else []:
+                    need(limit, limit.remaining(sbIdx))
+                node = node.parent
+        return all(wanted <= room for room, wanted in demand.values())
 
     def incLimits(self, sbIdx: int, resource: Optional[Any] = None) -> None:
         """
